@@ -1,32 +1,14 @@
 package main
 
 import (
-	"crypto/ed25519"
-	"encoding/base64"
 	"fmt"
-	"os"
-	"strconv"
+	"time"
 
-	"verif/checks/c39/detkeys"
-	cr "verif/ref/sshcertref"
-	kv "verif/ref/sshkeyv1"
-	sr "verif/ref/sshsigref"
+	"verif/ref/bcryptpbkdfref"
 )
 
 func main() {
-	dir := os.Args[1]
-	vb, _ := strconv.ParseUint(os.Args[2], 0, 64)
-	ca := detkeys.Ed25519("ca")
-	user := detkeys.Ed25519("user")
-	up := sr.FromEd25519(user.Public().(ed25519.PublicKey))
-	ct := &cr.Cert{TypeName: sr.CertTypeOf(sr.ED25519), Nonce: make([]byte, 32), KeyFields: up.KeyFields(), Serial: 1, CertType: cr.User, KeyID: "probe",
-		Principals: []string{"alice"}, ValidAfter: 0, ValidBefore: vb}
-	cab := sr.FromEd25519(ca.Public().(ed25519.PublicKey)).Blob()
-	ct.SignWith(cab, func(tbs []byte) sr.Sig { return sr.SignEd25519(ca, tbs) })
-	os.WriteFile(dir+"/user", kv.Armor(kv.Encode(&kv.Key{Type: sr.ED25519, Ed25519: user}, "user", 5)), 0o600)
-	os.WriteFile(dir+"/user.pub", []byte("ssh-ed25519 "+base64.StdEncoding.EncodeToString(up.Blob())+" user\n"), 0o644)
-	os.WriteFile(dir+"/user-cert.pub", []byte(ct.TypeName+" "+base64.StdEncoding.EncodeToString(ct.Bytes())+" user\n"), 0o644)
-	os.WriteFile(dir+"/allowed", []byte("alice cert-authority ssh-ed25519 "+base64.StdEncoding.EncodeToString(cab)+"\n"), 0o644)
-	os.WriteFile(dir+"/msg", []byte("hello\n"), 0o644)
-	fmt.Println("written, valid before", vb)
+	t := time.Now()
+	k, err := bcryptpbkdfref.Key([]byte("x"), []byte("0123456789abcdef"), 16, 48)
+	fmt.Println(len(k), err, time.Since(t))
 }
